@@ -337,7 +337,6 @@ func headerName(e ast.Expr) string {
 }
 
 func factsCache()      {}
-func factsResponse()   {}
 func factsCompress()   {}
 func factsServer()     {}
 func factsMain()       {}
@@ -552,4 +551,48 @@ func factsLocation() {
 		})
 	}
 	defStr("locationSort", cmp)
+}
+
+// ---------------------------------------------------------------- cache/http_response.go
+func factsResponse() {
+	section("cache/http_response.go")
+	f := parse("cache/http_response.go")
+	ih, ok := varStrList(f, "ignoreHeaders")
+	if !ok {
+		ih = []string{"unknownShape:ignoreHeaders"}
+	}
+	defStrList("ignoreHeaders", ih)
+	defStr("defaultFilterRe", regexVar(f, "defaultCompressContentTypeFilter"))
+	// the profile Cacheable switches the response to
+	best := "unknownShape:BestCompression"
+	if cf := parse("compress/compress.go"); cf != nil {
+		for _, d := range cf.Decls {
+			gd, ok := d.(*ast.GenDecl)
+			if !ok || gd.Tok != token.CONST {
+				continue
+			}
+			for _, sp := range gd.Specs {
+				vs := sp.(*ast.ValueSpec)
+				for i, nm := range vs.Names {
+					if nm.Name == "BestCompression" && i < len(vs.Values) {
+						if v, ok := strLit(vs.Values[i]); ok {
+							best = v
+						}
+					}
+				}
+			}
+		}
+	}
+	defStr("bestCompressionName", best)
+	prof := "unknownShape:Cacheable profile"
+	if hf := parse("cache/http_cache.go"); hf != nil {
+		if fd := funcDecl(hf, "httpCache", "Cacheable"); fd != nil {
+			for _, st := range fd.Body.List {
+				if nsrc(st) == "resp.CompressSrv=compress.BestCompression" {
+					prof = "BestCompression"
+				}
+			}
+		}
+	}
+	defStr("cacheableProfile", prof)
 }
